@@ -140,9 +140,10 @@ def _apply_hop(cur, h, fv):
                 return sparse.asarray(cur, format=k)
             return _cs_cls(k).from_numpy(cur, fill_value=fv)
         if k == "dok":
-            # DOK.from_numpy takes no fill value (and has its own defects, exercised by the construction
-            # cases with direct=True); inside chains a dense array returns to DOK through COO
-            if h.get("direct"):
+            # DOK.from_numpy takes no fill value: the direct constructors (DOK.from_numpy / asarray(format="dok") /
+            # DOK(ndarray)) serve arrays with fill 0, any ndim (0-d included); other fills return to DOK through COO
+            dok_zero = bool(fv == 0) and not (np.issubdtype(cur.dtype, np.floating) and np.signbit(fv))
+            if h.get("direct") or dok_zero:
                 if via == 1:
                     return sparse.asarray(cur, format="dok")
                 return sparse.DOK(cur) if via == 2 else sparse.DOK.from_numpy(cur)
@@ -633,7 +634,18 @@ def gen_narrow_cases(rng, tier):
 
 def gen_make_cases(rng, tier, n):
     cases = []
-    # directed: the open findings of the direct DOK constructors (0-d input; a stored -0.0), every API path
+    # directed: 1-d arrays whose coordinates are held in an UNSIGNED dtype and given out of order with repeats
+    # (the constructor must still sort by a signed linear location and sum)
+    for idt in ("uint8", "uint16", "uint32", "uint64"):
+        for _ in range(3):
+            d = rng.choice([3, 5, 9])
+            k = rng.randint(3, 8)
+            coords = [[rng.randrange(d)] for _ in range(k)]
+            if all(coords[j][0] <= coords[j + 1][0] for j in range(k - 1)):
+                coords[0], coords[-1] = [d - 1], [0]
+            cases.append({"k": "coords", "dtype": "int64", "shape": [d], "coords": coords, "data": [rng.choice([1, 2, 3, -2]) for _ in range(k)],
+                          "fill": rng.choice([0, 3]), "sorted": False, "hasdup": True, "prune": rng.random() < 0.5, "idx_dtype": idt})
+    # directed: the direct DOK constructors on a 0-d input and on a stored -0.0 (repaired in e32b8cc / 29860dd), every API path
     for via in (0, 1, 2):
         cases.append({"k": "dense", "dtype": "float64", "shape": [3], "flat": [0.0, -0.0, 2.0], "fill": 0.0,
                       "fmt": {"fmt": "dok", "via": via, "direct": True}})
@@ -732,6 +744,7 @@ def gen_make_cases(rng, tier, n):
         else:
             axis = rng.randint(0, 1)
             canonical = rng.random() < 0.4
+            sorted_dups = rng.random() < 0.5
             nrows, ncols = (r, c) if axis == 0 else (c, r)
             indptr, indices = [0], []
             for _row in range(nrows):
@@ -740,6 +753,9 @@ def gen_make_cases(rng, tier, n):
                     cols = sorted(rng.sample(range(ncols), min(cnt, ncols)))
                 else:
                     cols = [rng.randrange(ncols) for _ in range(cnt)]
+                    if sorted_dups:
+                        # scipy's has_sorted_indices (non-decreasing) holds, has_canonical_format does not
+                        cols = sorted(cols + cols[:1])
                 indices += cols
                 indptr.append(len(indices))
             cases.append({"k": "scipy_cs", "dtype": dtype, "axis": axis, "canonical": canonical, "shape": [r, c], "indices": indices, "indptr": indptr,
@@ -878,7 +894,7 @@ def campaign(build, tier, seed, report, budget=1):
     n_chain = (1000 if tier == "quick" else 9000) * budget
     cc = gen_chain_cases(rng, tier, n_chain)
     cc += gen_narrow_cases(rng, tier)
-    # the witness of Props.C05.conversion_chain_den_refuted, replayed on the implementation (always case 0)
+    # a 0-d array holding its element through DOK and back (rejected before fix e0a1c30; Props.C05.conversion_chain_0d)
     cc.insert(0, {"spec": {"shape": [], "coords": [[]], "data": [5], "fill": 0, "format": "coo", "caxes": None, "dtype": "int64"},
                   "hops": [{"fmt": "dok", "via": 0}, {"fmt": "coo", "via": 0}]})
     n_ind = (180 if tier == "quick" else 1800) * budget
@@ -966,17 +982,12 @@ def campaign(build, tier, seed, report, budget=1):
                                                        vlist(c["indptr"]), lit_fmt(scipy_equiv(c["fmt"], c["axis"])), out)
         mlits.append("(" + lit + ")")
     MK = {1: ("representation", None), 2: ("value", None), 3: ("value", None), 4: ("value", None),
-          5: ("value", "zero_dim_from_iter"), 6: ("value", None)}
+          5: ("value", None), 6: ("value", None)}
     for i, code in build.judge("c05_make", IMPORTS, "mk_case", "judge_make", mlits, chunk=250):
         c, r = mc[i], mres[i]
         kind, clause = MK.get(code, ("value", None))
-        if c["k"] == "dense" and c["fmt"].get("direct"):
-            if code == 2 and any(isinstance(v, float) and v == 0 and math.copysign(1, v) < 0 for v in c["flat"]):
-                clause = "dok_from_numpy_negative_zero"
-            if code == 4 and c["shape"] == []:
-                clause = "dok_from_numpy_0d"
         what = {1: "representation differs from the model", 2: "an element, the shape or the fill differs from the Spec",
-                3: "result is not in canonical form", 4: "exception on a valid input", 5: "exception on a valid 0-d input (COO.from_iter rejects the key ())",
+                3: "result is not in canonical form", 4: "exception on a valid input", 5: "exception on a valid input (the model raises too)",
                 6: "malformed input accepted"}.get(code)
         viol.append(dict(property="C05", op="construct:" + c["k"], kind=kind, clause=clause, code=code, what=what, case=c, impl=r,
                          replay_py=replay_line("impl_make", c)))
@@ -1030,7 +1041,7 @@ def campaign(build, tier, seed, report, budget=1):
           2: ("value", None, "shape, fill value or an element changed"),
           3: ("value", None, "result is not in canonical form"),
           4: ("value", None, "exception on a valid conversion"),
-          5: ("value", "zero_dim_from_iter", "0-d DOK holding an element cannot be converted (COO.from_iter rejects the key ())"),
+          5: ("value", None, "exception on a valid conversion (the model raises too)"),
           6: ("value", None, "invalid conversion accepted"),
           7: ("representation", None, "malformed case (harness)")}
     for j, v in build.judge("c05_chain", IMPORTS, "chain_case", "judge_chain", clits, chunk=150):
@@ -1077,10 +1088,6 @@ def campaign(build, tier, seed, report, budget=1):
     cov["chain_cases"] = len(cc)
     cov["chain_hops"] = sum(len(r.get("outs", [])) for r in cres)
     cov["independence_cases"] = len(ic)
-    w = cres[0].get("outs", [{}])[-1]
-    cov["refuted_witnesses_replayed"] = [{
-        "theorem": "conversion_chain_den_refuted", "input": "0-d COO holding 5 -> DOK -> COO",
-        "implementation": w.get("cls") or w.get("k"), "reproduced": w.get("k") == "exc"}]
     cov["differential_only"] = ["dtype preservation after every hop", "representation independence of sum/add/getitem/transpose"]
     cov["samples"] = [dict(case=cc[i], impl=cres[i]) for i in (0, len(cc) // 2, len(cc) - 1)] + [dict(case=mc[0], impl=mres[0])]
     cov["branch_tags"] = dict(sorted(tags.items()))
@@ -1089,9 +1096,6 @@ def campaign(build, tier, seed, report, budget=1):
 
 
 UNPROVED = [
-    "conversion_chain_den (full statement): false of the code (0-d DOK holding an element -> COO raises); proved as "
-    "conversion_chain_den_partial under dok0d_clause, refuted by conversion_chain_den_refuted (the clause stays: the code "
-    "still raises, finding zero_dim_from_iter)",
     "format changes INSIDE scipy (csr <-> csc <-> coo by scipy's asformat, e.g. CSC.from_scipy_sparse(csr matrix), "
     "sparse.asarray(coo_matrix, format='gcxs')) and scipy's sum_duplicates algorithm itself are not modelled: sum_duplicates is "
     "modelled by its result and compared with real scipy by correspondence; cross-orientation construction is correspondence only",
